@@ -2,8 +2,8 @@
    Mechanism level (for ALL expressions / ranges / call sequences): the connection clause ("bit k of the expression,
    counted from its least significant end, is joined to bit k of the port") for identifier, bit-select,
    part-select, constants (one-wire cables) and concatenations, for any port width >= expression width;
-   create_or_update_cable / _port growth and re-basing; assign pin order REFUTED as stated (open finding), with
-   the part that holds; the top clause PROVED (C06_top_clause_holds: in every file order the single root is the top).
+   create_or_update_cable / _port growth and re-basing; the assign clause PROVED (C06_assign_clause_holds: pin k of the
+   assignment instance carries bit k of both sides); the top clause PROVED (C06_top_clause_holds: in every file order the single root is the top).
    Document level: the reader VerilogParser.parse_verilog is modelled from the document value to the netlist value
    (Fmt/VElab.v elab, tied to the real parser on every run by harness/verilog_doc.py).
      C06_wf       : for ALL documents, whatever elab returns is a well-formed, self-contained netlist value.
@@ -109,20 +109,28 @@ Example C06_update_port_other_base_no_hull :
   b_hi (update_port (Some 4) (Some 1) false b) = 3 /\ b_hi (update_cable (Some 4) (Some 1) false b) = 4.
 Proof. vm_compute. split; reflexivity. Qed.
 
-(* assign statements: in the faithful model of connect_wires_for_assign pin k of the assignment instance carries
-   bit w-1-k of both sides; the clause "pin k carries bit k" is REFUTED for multi-bit assigns (open finding
-   V06-assign-msb-first; witness replayed by corpus/verilog/a1-multi-bit-assign.json). The two sides are still
-   paired bit by bit (lhs bit j with rhs bit j). *)
-Theorem C06_assign_pins_msb_first : forall e c h l c2 h2 l2 k,
-  atom_typed e (APart c h l) -> atom_typed e (APart c2 h2 l2) -> h - l = h2 - l2 -> 0 <= k <= h - l ->
-  exists pins, read_assign e (APart c h l) (APart c2 h2 l2) = Some pins /\
-    nth_error pins (Z.to_nat k) = Some ((c, h - k), (c2, h2 - k)).
-Proof. exact assign_pins_msb_first_lemma. Qed.
-Print Assumptions C06_assign_pins_msb_first.
+(* assign statements (repaired: former finding V06-assign-msb-first, pin k carried bit w-1-k): in the model of
+   connect_wires_for_assign pin k of the assignment instance carries bit k, counted from the low end, of both
+   sides, for any two typed atoms; the instance is as wide as the narrower side. *)
+Theorem C06_assign_pins_lsb_first : forall e lhs rhs, atom_typed e lhs -> atom_typed e rhs ->
+  let w := Nat.min (awidth e lhs) (awidth e rhs) in
+  exists pins, read_assign e lhs rhs = Some pins /\ length pins = w /\
+    forall k, (k < w)%nat ->
+      nth_error pins k = Some ((atom_cable lhs, alo e lhs + Z.of_nat k), (atom_cable rhs, alo e rhs + Z.of_nat k)) /\
+      nth_error (atom_bits e lhs) k = Some (atom_cable lhs, alo e lhs + Z.of_nat k) /\
+      nth_error (atom_bits e rhs) k = Some (atom_cable rhs, alo e rhs + Z.of_nat k).
+Proof. exact assign_pins_lsb_lemma. Qed.
+Print Assumptions C06_assign_pins_lsb_first.
 
-Theorem C06_assign_clause_refuted : ~ assign_lsb_pins.
-Proof. exact assign_lsb_pins_refuted_lemma. Qed.
-Print Assumptions C06_assign_clause_refuted.
+(* the clause "pin k carries bit k" (was C06_assign_clause_refuted) *)
+Theorem C06_assign_clause_holds : assign_lsb_pins.
+Proof. exact assign_lsb_pins_holds_lemma. Qed.
+Print Assumptions C06_assign_clause_holds.
+
+(* regression witness of the former refutation: assign a[1:0] = b[1:0] (corpus/verilog/a1-multi-bit-assign.json) *)
+Example C06_assign_lsb_witness :
+  read_assign wit_env (APart 0%nat 1 0) (APart 1%nat 1 0) = Some [((0%nat, 0), (1%nat, 0)); ((0%nat, 1), (1%nat, 1))].
+Proof. vm_compute. reflexivity. Qed.
 
 (* top election. The clause "the single root module of the design becomes the top" holds of the model of
    parse_module / parse_instantiation / elect_top in EVERY file order (elect_top decides at the end of the file; the
@@ -349,9 +357,23 @@ Proof.
   - eexists. split; vm_compute; reflexivity.
 Qed.
 
-(* an assign: one instance of SDN_VERILOG_ASSIGNMENT_w, w = the smaller width; pin k of o / i carries bit w-1-k ...
-   of the left / right side: the sides are paired bit by bit, MOST significant first (open finding
-   V06-assign-msb-first: the property wants pin k = bit k; equal for w = 1) *)
+(* an EMPTY position "M m(a, , b);" (repaired: former finding V06-positional-empty, the map was rejected): nothing is
+   connected and no definition other than the referenced one changes; beyond the ports the referenced definition has,
+   an unnamed one-bit port [0:0] takes the position, so that the following positions keep their index *)
+Theorem C06_full_positional_empty : forall cur ii rk fresh index s s', (rk < length (st_defs s))%nat ->
+  pos_conn cur ii rk fresh index None s = Ok s' ->
+  let rd := get_def rk s in
+  (forall k, k <> rk -> get_def k s' = get_def k s) /\ names s' = names s /\
+  (if fresh
+   then get_def rk s' = set_ports rd (ed_ports rd ++ [{| ep_name := None; ep_dir := None; ep_b := new_bundle (Some 0) (Some 0) 0 |}]) /\
+        b_lo (new_bundle (Some 0) (Some 0) 0) = 0 /\ length (b_items (new_bundle (Some 0) (Some 0) 0)) = 1%nat
+   else s' = s).
+Proof. exact pos_conn_empty_spec. Qed.
+Print Assumptions C06_full_positional_empty.
+
+(* an assign: one instance of SDN_VERILOG_ASSIGNMENT_w, w = the smaller width; pin k of o / i carries bit k (from the
+   low end: datom_bits is least significant first) of the left / right side - what the statement means (former
+   finding V06-assign-msb-first: pin k carried bit w-1-k) *)
 Theorem C06_full_assigns : forall lhs rhs n d d', DInv d -> datom_typed (crange d) lhs -> datom_typed (crange d) rhs ->
   assign_item lhs rhs n d = Ok d' ->
   let lb := datom_bits (crange d) lhs in let rb := datom_bits (crange d) rhs in
@@ -361,7 +383,7 @@ Theorem C06_full_assigns : forall lhs rhs n d d', DInv d -> datom_typed (crange 
     d' = set_conn (set_insts d2 (ed_insts d ++ [{| ei_name := assign_name w n; ei_ref := RAssign w; ei_params := []; ei_attrs := [] |}]))
                   (ed_conn d ++ new) /\
     (forall p x, In (p, x) new -> exists pk k, p = POuter ii pk k) /\
-    (forall k, (k < w)%nat -> pin_label d' (POuter ii 1 k) = nth_error (rev lb) k /\ pin_label d' (POuter ii 0 k) = nth_error (rev rb) k).
+    (forall k, (k < w)%nat -> pin_label d' (POuter ii 1 k) = nth_error lb k /\ pin_label d' (POuter ii 0 k) = nth_error rb k).
 Proof. exact assign_item_spec. Qed.
 Print Assumptions C06_full_assigns.
 
@@ -369,7 +391,7 @@ Example C06_full_assigns_witness :
   let d := get_def 0 ex_state in
   datom_typed (crange d) (DPart (S "y") 1 0) /\ datom_typed (crange d) (DPart (S "w") 3 2) /\
   exists d', assign_item (DPart (S "y") 1 0) (DPart (S "w") 3 2) 0 d = Ok d' /\
-    def_assigns d' = [[(Some (S "y", 1), Some (S "w", 3)); (Some (S "y", 0), Some (S "w", 2))]].
+    def_assigns d' = [[(Some (S "y", 0), Some (S "w", 2)); (Some (S "y", 1), Some (S "w", 3))]].
 Proof.
   split; [split; [reflexivity|]; cbn; exists 0, 2%nat; split; [vm_compute; reflexivity|lia]|].
   split; [split; [reflexivity|]; cbn; exists 2, 4%nat; split; [vm_compute; reflexivity|lia]|].
